@@ -599,8 +599,27 @@ def arrmac(tier, seed, params):
     return out
 
 
+HYGIENE_NAMES = ["LEN", "N", "LENGTH", "INPUT_LENGTH", "len", "n", "repeat", "array", "arr", "vec", "value", "x", "helper", "do_transmute"]
+
+
 def arrconst(tier, seed, params):
     out = []
+    # item hygiene: the caller's element expression names its own constant / variable; names taken from a fixed
+    # list plus every helper item name the current expansions define that is not `__`-reserved
+    names = list(HYGIENE_NAMES)
+    try:
+        import json, os, re
+        txt = open(os.path.join(os.path.dirname(os.path.dirname(os.path.abspath(__file__))), "lean", "GA", "Gen", "Arr.lean")).read()
+        mm = re.search(r"def helperNames : List String := \[(.*?)\]", txt)
+        for nm in re.findall(r'"([^"]+)"', mm.group(1) if mm else ""):
+            if not nm.startswith("__") and nm not in names:
+                names.append(nm)
+    except OSError:
+        pass
+    for nm in names:
+        for form in ("repty", "repconst", "list"):
+            for box in (0, 1):
+                out.append("op=hygiene name=%s form=%s box=%d" % (nm, form, box))
     for k in ARR_LIST_KS:
         out.append("op=constpos form=list k=%d trail=0 pos=const" % k)
     for k in (0, 1, 2, 3, 17, 64):
@@ -650,6 +669,9 @@ def constapi(tier, seed, params):
             for k in range(0, 4):
                 for fn in ("slice_from_chunks", "slice_from_chunks_mut", "from_chunks", "from_chunks_mut", "into_chunks", "into_chunks_mut"):
                     out.append("op=const fn=%s n=%d k=%d ty=%s" % (fn, n, k, ty))
+    import corpora
+    for k, x in enumerate(corpora.XMUTE):
+        out.append("op=const fn=const_transmute pair=%d sa=%d sb=%d aa=%d ab=%d" % (k, x[4], x[5], x[6], x[7]))
     out.append("op=const fn=from_array n=1024 ty=u8")
     out.append("op=const fn=uninit n=1024 ty=u32")
     return out
@@ -718,4 +740,26 @@ def filldefault(tier, seed, params):
         ns = FILL_NS if (kind in ("u8", "slot") or tier == "thorough") else [0, 1, 2, 3, 4, 5, 7, 8, 15, 16, 17, 31, 32, 33, 63, 64, 127, 128, 129, 1023, 1024]
         for n in ns:
             out.append("op=const_item kind=%s n=%d" % (kind, n))
+    return out
+
+
+XMUTE_PAIRS = [(0, 4, 4), (1, 4, 2), (2, 2, 4), (3, 8, 6), (4, 6, 8), (5, 6, 6), (6, 0, 0), (7, 0, 1), (8, 1, 0), (9, 56, 48),
+               (10, 12, 12), (11, 6, 7), (12, 7, 6), (13, 0, 0), (14, 8, 0), (15, 1024, 1024), (16, 1025, 1024)]
+
+
+def xmute(tier, seed, params):
+    """`const_transmute::<A, B>` for a table of type pairs: equal sizes, source larger, source smaller, zero-sized"""
+    return ["pair=%d sa=%d sb=%d" % p for p in XMUTE_PAIRS]
+
+
+def heap_c04(tier, seed, params):
+    """boxed generate / default_boxed with a panic at every generator call, for a drop-tracked and a zero-sized
+    drop-counted element type (the boxed forms have their own fill loop in src/impl_alloc.rs)"""
+    out = []
+    for kind in ("tr", "z"):
+        for n in (0, 1, 2, 3, 4, 5, 8):
+            for op in ("boxed_generate", "default_boxed"):
+                out.append("op=%s n=%d kind=%s fault=none" % (op, n, kind))
+                for k in range(n):
+                    out.append("op=%s n=%d kind=%s fault=call:%d" % (op, n, kind, k))
     return out
